@@ -11,6 +11,8 @@ RULES = {
              "aligned and in order (idiom whitelist) and its per-element expression, reduced to a canonical rational "
              "form, equals the specified operation (a+b, a-b, a*b, a*b*s, a/s, (a+sum others)/(k+1), clamp(a,min,max)); "
              "one IEEE operation chain per element, identical in every rank; nested arms recurse into the same operation",
+    "R15.5": "exactness across ranks: the per-element floating-point operations are the same tree (same association, e.g. (a*b)*s) in every "
+             "rank arm of an operation, so the rounded result does not depend on the rank",
     "R15.2": "the shape assertion (assert_eq_shape!(self.shape, other.shape); for mean: for every other) is a statement "
              "executed before the rank dispatch; none of the operations assigns self.shape",
     "R15.3": "product[i][j] = a_i*b_j with shape Double(|a|,|b|); dot_i = sum_j row_i[j]*x_j with shape Single(rows); "
@@ -56,6 +58,7 @@ def elementwise(ctx, op, nested=()):
     arms.guarded_arms(ctx, "R15.1", fn, m, op)
     ras = arms.rank_arms(m)
     seen = set()
+    trees = {}
     env0 = arms.fn_level_env(c, fn, upto=m)
     for ra in ras:
         rank = ra["rank"]
@@ -79,6 +82,10 @@ def elementwise(ctx, op, nested=()):
             if r.levels != RANKS4.index(rank) + 1:
                 ctx.bad("R15.1", inst, "traversal-depth-%d" % r.levels, where, "a %s arm must traverse %d levels" % (rank, RANKS4.index(rank) + 1))
                 continue
+            try:
+                trees[rank] = e1.optree_of_update(c, r.body, r.cellname(c))
+            except Exception as e:  # noqa
+                trees[rank] = ("?", str(e))
             if len(sem) != 1 or sem[0][0]:
                 ctx.bad("R15.1", inst, "unexpected-guards", where, str([g for g, _ in sem]))
                 continue
@@ -113,6 +120,14 @@ def elementwise(ctx, op, nested=()):
         else:
             outs = e4.outcomes(c, ra["arm"]["body"], lambda n: False)
             ctx.check("R15.1", inst, not outs, "unexpected-rank-arm", where, "arm panics", "arm for %s is neither a specified rank nor a rejection" % rank)
+    if op != "mean_inplace" and len(trees) >= 2:
+        ref_rank = "Single" if "Single" in trees else sorted(trees)[0]
+        for rank, t in sorted(trees.items()):
+            if rank == ref_rank:
+                continue
+            ctx.check("R15.5", "%s:%s" % (op, rank), t == trees[ref_rank], "operation-order-differs-from-%s-arm" % ref_rank, c.loc(fn, m),
+                      "same IEEE operations in the same association as the %s arm" % ref_rank,
+                      "%s: the %s arm performs %s but the %s arm %s: the rounded result then depends on the tensor's rank" % (op, rank, t, ref_rank, trees[ref_rank]))
     for rank in RANKS4:
         if rank not in seen:
             ctx.bad("R15.1", "%s:%s" % (op, rank), "rank-not-supported", c.loc(fn, m), "%s has no %s arm" % (op, rank))
@@ -335,6 +350,7 @@ def run(ctx):
     ctx.guard("R15.2", "shape-unchanged", no_shape_write, ctx, ["add_inplace", "sub_inplace", "mul_inplace", "hadamard", "div_scalar_inplace", "mean_inplace"])
     ctx.guard("R15.3", "linear-algebra", linear_algebra, ctx)
     ctx.guard("R15.4", "hadamard3d", hadamard3d, ctx)
+    ctx.floor("R15.5", 18, "6 operations x 3 non-reference ranks")
     ctx.floor("R15.1", 31, "7 operations x 4 ranks + 3 nested arms")
     ctx.floor("R15.2", 5 + 6, "5 shape assertions + 6 shape-unchanged facts")
     ctx.floor("R15.3", 7, "product, dot, transpose forms and shapes")
